@@ -44,6 +44,8 @@ func init() {
 			return c08.DriveTL(w, o)
 		case "helpers":
 			return c08.DriveHelpers(w, o)
+		case "tuples":
+			return c08.DriveTuples(w, o)
 		case "big":
 			return c08.DriveBig(w, o)
 		case "replay":
